@@ -343,7 +343,10 @@ def gen_sizes(rng, ncases):
             combos.append(("vec_reserve", ty))
     combos += [("sb_reserve", "UInt8"), ("bitset", "Int32")]
     rng.shuffle(combos)
-    combos = combos[:ncases]
+    # every element-size class and every constructor is always present; the rest is a random sample
+    fixed = [("zero", "Int64"), ("zero", "UInt8"), ("fill", "(Int64, Int64, Int64)"), ("fill", "K"), ("fill", "()"), ("vec_capacity", "Int64"),
+             ("vec_reserve", "UInt8"), ("new_default", "Int32"), ("fill_with", "(Int64, Bool)"), ("sb_reserve", "UInt8"), ("bitset", "Int32")]
+    combos = (fixed + [x for x in combos if x not in fixed])[:max(ncases, len(fixed))]
     cases, entries = [], []
     for k, (ctor, ty) in enumerate(combos):
         val = ELEMS[ty][0]
@@ -557,6 +560,8 @@ def run_sizes(ctx, progs, gcs, ns_for, timeout):
                 for n in ns_for(name, c):
                     if c.elem == "()" and n > 0 and c.template in ("fill", "fill_with", "new_default"):
                         continue   # zero-sized elements: the constructor legitimately loops n times
+                    if c.template == "bitset" and -32 < n < 0:
+                        continue   # (n + 31) / 32 == 0 words: no allocation is requested
                     R.add((name, c.idx, key, n, "size"), exe, [c.idx, n, 0], flags, (src, c))
                 R.add((name, c.idx, key, 10, "control"), exe, [c.idx, 10, (c.idx % 2)], flags, (src, c))
     for tag, o in R.run(timeout):
@@ -638,20 +643,18 @@ def run(ctx):
     ctx.assumptions = [
         "a watchdog timeout is reported as inconclusive, not as a hang",
         "zero-sized element arrays with huge positive lengths are excluded for looping constructors (they legitimately loop n times)",
-        "reserve() with a negative amount that allocates nothing is accepted as a no-op",
+        "reserve() with a negative amount that allocates nothing is accepted as a no-op; BitSet::new(n) with -32 < n < 0 requests 0 words and is skipped",
         "the control run of recursion families with frames of tens of KiB may itself exceed the fixed 500 KiB budget; that is counted, not judged",
     ]
     timeout = 300
     # (a) stack
     if "stack" in only:
-        nrec = ctx.pick(2, 10)
+        nrec = ctx.pick(1, 8)
         progs, backends_for = [], {}
         for i in range(nrec):
             r = ctx.rng("rec", i)
             tpl = list(REC_TEMPLATES)
             r.shuffle(tpl)
-            if quick:
-                tpl = tpl[:10] if i else tpl
             src, cases = gen_recursion(r, tpl, max_struct=3)
             progs.append(("rec%02d" % i, src, cases))
             backends_for["rec%02d" % i] = progrun.BACKENDS
@@ -677,14 +680,14 @@ def run(ctx):
     # (c) sizes
     if "size" in only:
         progs = []
-        for i in range(ctx.pick(1, 3)):
+        for i in range(ctx.pick(1, 2)):
             r = ctx.rng("size", i)
-            src, cases = gen_sizes(r, ctx.pick(40, 80))
+            src, cases = gen_sizes(r, ctx.pick(12, 60))
             progs.append(("size%02d" % i, src, cases))
 
         def ns_for(name, c):
             r = ctx.rng("ns:" + name, c.idx)
-            return SIZE_NS + r.sample(SIZE_NS_EXTRA, ctx.pick(2, 6))
+            return SIZE_NS + r.sample(SIZE_NS_EXTRA, ctx.pick(0, 4))
         run_sizes(ctx, progs, GCS + ("zero",), ns_for, timeout)
     # memcheck sample (thorough)
     if "memcheck" in only and not quick:
